@@ -222,6 +222,12 @@ impl Searcher {
             }
         }
 
+        // A node abandoned because the time budget ran out has not examined all of its moves:
+        // its partial result must not be cached as if it were a completed search
+        if self.timer.should_stop() {
+            return best_result;
+        }
+
         let bound = self.determine_bound(best_result.score, original_alpha, beta);
         self.store_in_transposition_table(board, &best_result, depth, bound);
 
